@@ -36,6 +36,22 @@ ValOne(recipe, res, envs) ==
     ELSE LET s == ScanEnvs(recipe, res.v, envs, 1, FALSE)
          IN IF s = "eq" THEN "ok" ELSE IF s = "unk" THEN "unk" ELSE "bad:value:" \o s
 
+\* "at every point where both are defined": a non-finite value of the result is not decisive either,
+\* and an operation documented as not implemented for a class may say so
+RECURSIVE ScanEnvsDef(_, _, _, _, _)
+ScanEnvsDef(recipe, result, envs, k, seenEq) ==
+    IF k > Len(envs) THEN (IF seenEq THEN "eq" ELSE "unk")
+    ELSE LET c == IF Finite(Val(result, envs[k])) THEN CmpAt(recipe, result, envs[k]) ELSE "unk"
+         IN IF c = "ne" THEN "ne@" \o ToString(k)
+            ELSE ScanEnvsDef(recipe, result, envs, k + 1, seenEq \/ c = "eq")
+ValOneDef(recipe, res, envs) ==
+    IF res.exc = "VerifAssertionError" THEN "bad:assertion"
+    ELSE IF res.exc \in {"NotImplementedError", "SymEngineException"} THEN "unk"
+    ELSE IF res.exc # "" THEN (IF SomeFinite(recipe, envs) THEN "bad:exception:" \o res.exc ELSE "unk")
+    ELSE IF ~IsCanonicalDeep(res.v) THEN "bad:not-canonical"
+    ELSE LET s == ScanEnvsDef(recipe, res.v, envs, 1, FALSE)
+         IN IF s = "eq" THEN "ok" ELSE IF s = "unk" THEN "unk" ELSE "bad:value:" \o s
+
 Worst(rs) == IF \E i \in 1..Len(rs) : rs[i] \notin {"ok", "unk"}
              THEN rs[CHOOSE i \in 1..Len(rs) : rs[i] \notin {"ok", "unk"}]
              ELSE IF \E i \in 1..Len(rs) : rs[i] = "ok" THEN "ok" ELSE "unk"
@@ -43,11 +59,23 @@ Worst(rs) == IF \E i \in 1..Len(rs) : rs[i] \notin {"ok", "unk"}
 AllSame(vs) == IF \A i \in 2..Len(vs) : vs[i] = vs[1] THEN "ok"
                ELSE "bad:results-differ:" \o ToString(CHOOSE i \in 2..Len(vs) : vs[i] # vs[1])
 
+\* a factor with a negative numeric exponent, or a fraction, at the top level of a dumped product / power / number
+NegNum(t) == (t.k = "Int" /\ t.n < 0) \/ (t.k = "Rat" /\ t.n < 0)
+NegTop(t) ==
+    CASE t.k = "Rat" -> TRUE
+      [] t.k = "Pow" -> NegNum(t.a[2])
+      [] t.k = "Mul" -> t.a[1].k = "Rat" \/ \E i \in 2..Len(t.a) : NegNum(t.a[i].a[2])
+      [] OTHER -> FALSE
+\* certainly not a real number (exactly known with a non-zero imaginary part,
+\* or known in polar form with an angle that is not a multiple of pi; mo[5] counts units of pi/12)
+NotReal(v) == v.t = "num" /\ ((Exact(v) /\ (v.im # R0 \/ v.ip # R0)) \/ (Len(v.mo) = 5 /\ v.mo[5] % 12 # 0))
+
 CheckEv(e) ==
     LET envs == EnvSets[e.c.envs]
         vals == [i \in 1..Len(e.c.ts) |-> ValOne(e.c.ts[i], e.r.vs[i], envs)]
     IN IF e.r.exc # "" THEN "bad:harness:" \o e.r.exc
        ELSE CASE e.c.chk = "val" -> Worst(vals)
+              [] e.c.chk = "valdef" -> Worst([i \in 1..Len(e.c.ts) |-> ValOneDef(e.c.ts[i], e.r.vs[i], envs)])
               [] e.c.chk = "same" -> AllSame(e.r.vs)
               [] e.c.chk = "val+same" -> Worst(<<AllSame(e.r.vs)>> \o vals)
               [] e.c.chk = "val1+same" -> Worst(<<AllSame(e.r.vs), ValOne(e.c.ts[1], e.r.vs[1], envs)>>)
@@ -72,6 +100,28 @@ CheckEv(e) ==
                             IF e.r.vs[i].exc = "VerifAssertionError" THEN "bad:assertion"
                             ELSE IF e.r.vs[i].exc # "" THEN "unk"
                             ELSE IF IsCanonicalDeep(e.r.vs[i].v) THEN "ok" ELSE "bad:not-canonical"])
+              \* C36: ts = <<numer(e), denom(e)>>: n/d has the value of e, and neither has a
+              \* negative numeric exponent or a fraction at its top level
+              [] e.c.chk = "numden" ->
+                   IF e.r.vs[1].exc # "" \/ e.r.vs[2].exc # ""
+                   THEN Worst(<<ValOne(e.c.ts[1].a[1], e.r.vs[1], envs), ValOne(e.c.ts[1].a[1], e.r.vs[2], envs)>>)
+                   ELSE LET n == e.r.vs[1].v
+                            d == e.r.vs[2].v
+                            q == T("div", <<n, d>>, "", 0, 0)
+                        IN Worst(<<ValOne(e.c.ts[1].a[1], [exc |-> "", v |-> q], envs),
+                                   IF NegTop(n) THEN "bad:negative-exponent-in-numerator"
+                                   ELSE IF NegTop(d) THEN "bad:negative-exponent-in-denominator" ELSE "ok">>)
+              \* C36: ts = <<real_part(e), imag_part(e)>>: re + I*im has the value of e and both are real
+              [] e.c.chk = "reim" ->
+                   IF e.r.vs[1].exc # "" \/ e.r.vs[2].exc # ""
+                   THEN Worst(<<ValOneDef(e.c.ts[1].a[1], e.r.vs[1], envs), ValOneDef(e.c.ts[1].a[1], e.r.vs[2], envs)>>)
+                   ELSE LET re == e.r.vs[1].v
+                            im == e.r.vs[2].v
+                            sum == T("add", <<re, T("mul", <<TI, im>>, "", 0, 0)>>, "", 0, 0)
+                        IN Worst(<<ValOne(e.c.ts[1].a[1], [exc |-> "", v |-> sum], envs),
+                                   IF \E k \in 1..Len(envs) : NotReal(Val(re, envs[k])) THEN "bad:real-part-not-real"
+                                   ELSE IF \E k \in 1..Len(envs) : NotReal(Val(im, envs[k])) THEN "bad:imaginary-part-not-real"
+                                   ELSE "ok">>)
               [] OTHER -> "bad:unknown-check"
 
 Events == ndJsonDeserialize(IOEnv.TRACE)
